@@ -54,9 +54,14 @@ def run(ctx, idx):
                     in_true = (c_ is up_.body or any(c_ is y_ for y_ in ast.walk(up_.body))) if isinstance(up_, ast.IfExp) else any(c_ is y_ for b_ in up_.body for y_ in ast.walk(b_))
                     if in_true and ts_.startswith("numpy.issubdtype(") and ".mask.dtype," in ts_:
                         dead = True
+                    # ... or the value is known to be whole there: `float(<the same value>).is_integer()` among the conjuncts
+                    conj_ = up_.test.values if isinstance(up_.test, ast.BoolOp) and isinstance(up_.test.op, ast.And) else [up_.test]
+                    if in_true and any(isinstance(t_, ast.Call) and isinstance(t_.func, ast.Attribute) and t_.func.attr == "is_integer" and isinstance(t_.func.value, ast.Call) and K.src(t_.func.value.func) == "float"
+                                       and t_.func.value.args and K.src(K.expand(rd[0].execute, t_.func.value.args[0])) == K.src(K.expand(rd[0].execute, c_.args[0])) for t_ in conj_):
+                        dead = True
                 up_ = par18.get(id(up_))
             ctx.ob("C18.k", "%s.execute::missing-value-not-narrowed" % rd[0].key, rd[0].module.rel, c_.lineno, dead,
-                   "int() of the missing value sits under a test of the mask's element type, which is never an integer type" if dead else
+                   "int() of the missing value sits under a test that is never true (the mask's element type) or that the value is whole" if dead else
                    "`%s` truncates the missing value on a live path: MissingValue = 2.5 becomes 2 and every valid cell holding 2 is reported missing (and overwritten with the fill value)" % K.src(c_)[:50])
     ctx.rule("C18.j", "A Fuzzy read is limited to [-1, +1]: the reader calls insure_fuzzy(result, ...) for its effect and returns `result`, so the helper must clamp the object it is given, in place (C04.b's summary of the helper: bounds established on the argument itself and the argument returned). A helper that clamps a copy leaves the values inside the accepted 1% pad as stored.")
     from engine.arrays import Scal as _Scal
@@ -65,6 +70,9 @@ def run(ctx, idx):
     _res, _out, _hf = R.summarize_helper(idx, "mpilot.utils", "insure_fuzzy", [_sym, _Scal(sym="lo"), _Scal(sym="hi")])
     _ign = [n_ for n_ in own_nodes(rd[0].execute.node) if isinstance(n_, ast.Expr) and isinstance(n_.value, ast.Call) and K.src(n_.value.func).split(".")[-1] == "insure_fuzzy"]
     _inplace = isinstance(_out, Arr) and _out.rng == (("s", "lo"), ("s", "hi")) and "X" in _out.alias
+    if not _inplace:
+        _res2, _out2, _hf2 = R.summarize_helper(idx, "mpilot.utils", "insure_fuzzy", [_sym, _Scal(const=-1), _Scal(const=1)])  # the limits the reader passes
+        _inplace = isinstance(_out2, Arr) and _out2.rng == (("c", -1), ("c", 1)) and "X" in _out2.alias
     if _ign:
         ctx.ob("C18.j", "%s.execute::fuzzy-read-is-clamped" % rd[0].key, rd[0].module.rel, _ign[0].lineno, _inplace,
                "insure_fuzzy clamps its argument in place; the reader returns that object" if _inplace else
